@@ -564,7 +564,7 @@ def binary_replay(V, wd, tier, prop, ops):
     V.add_model(r, "Interleave")
     V.coverage["arrival_orders_enumerated"] = len(orders)
     by_case = {c["id"]: c for c in cases}
-    cap = 500 if q else 20000
+    cap = 1200 if q else 20000
     jobs = []
     meta = {}
     todo = [(o, op, var) for o in orders for (op, var) in ops]
@@ -941,7 +941,7 @@ def C20(V, tier):
                 for at in (0, 1, 3):
                     pts.append((n["id"], gid, at))
         rng.shuffle(pts)
-        for (node, gid, at) in pts[: (2 if q else 6)]:
+        for (node, gid, at) in pts[: (3 if q else 6)]:
             progs.append({"name": f"{p['name']}@{node}.{gid}.{at}", "prog": p["prog"], "sinks": p["sinks"],
                           "crash": {"node": node, "gid": gid, "at": at}})
     jobs = jobsuite.make_jobs(progs, configs, trace=True, keep=["probe", "worker", "exec_end"],
